@@ -169,8 +169,8 @@ def cut_fn(src, name, impl=None, nth=1):
     return c
 
 
-def cut_item(src, kind, name):
-    """enum / struct / type / const / static item at top level."""
+def cut_item(src, kind, name, depth=0):
+    """enum / struct / type / const / static item at top level (depth=1: inside an impl / mod block)."""
     t, m = src.text, src.mask
     rx = re.compile(r'\b' + kind + r'\s+' + re.escape(name) + r'\b')
     for mm in code_finditer(t, m, rx):
@@ -182,7 +182,7 @@ def cut_item(src, kind, name):
                     d += 1
                 elif t[k] == '}':
                     d -= 1
-        if d != 0:
+        if d != depth:
             continue
         # end: first of ';' or matching '}' at depth 0
         j = mm.end()
